@@ -113,10 +113,10 @@ theorem reportOverlapsText_ok (asmName : Str) (pairs : List OvPair)
     intro p hp
     obtain ⟨t1, h1⟩ := fragmentStr_ok p.f1 (h p hp).1
     obtain ⟨t2, h2⟩ := fragmentStr_ok p.f2 (h p hp).2
-    refine ⟨_, ?_, trivial⟩
+    refine ⟨"\nOverlap:\n".toList ++ p.s1 ++ [' '] ++ t1 ++ ['\n'] ++ p.s2 ++ [' '] ++ t2 ++ ['\n'], ?_, trivial⟩
     unfold overlapText
     rw [h1, h2]; rfl)
-  refine ⟨_, ?_⟩
+  refine ⟨"\nOverlaps detected in assembly '".toList ++ asmName ++ "'\n".toList ++ ts.flatten, ?_⟩
   unfold reportOverlapsText
   rw [hts]; rfl
 
